@@ -232,6 +232,16 @@ theorem reload_part_converges (s : State) (p : Part) :
   rw [get?_report_parts, h1, h4]
   simp [h3, partChanged_stampOf]
 
+/-- RELOAD, histories.  The font is in step with its UFO; another program edits the top-level file
+of `p` in any way (rewrite, create, touch, delete); `reloadInfo/…/reloadLib` for `p` then brings the
+font back in step — so the second test reports nothing at all (`detect_sound`), and so does every
+test after any further quiet history (`synced_step`). -/
+theorem reload_part_resyncs (s : State) (h : Synced s) (p : Part) (a : XAct) (t : Option Time) (d' : Disk)
+    (hx : xPart s.zip s.disk p a t = some d') :
+    Synced (reloadPart { s with disk := d' } p) ∧
+    report (reloadPart { s with disk := d' } p) = quietReport (reloadPart { s with disk := d' } p) :=
+  ⟨synced_reload_after_xpart h hx, report_quiet (synced_reload_after_xpart h hx)⟩
+
 /-- RELOAD, glyphs.  After a test, `reloadGlyphs` of a glyph whose file is on disk (modified: it is
 loaded; added: it is not scheduled for deletion) succeeds, leaves the glyph with the file's content
 and the file's stamp, and the second test does not list it as modified. -/
@@ -272,6 +282,14 @@ theorem usable_lazy_read (s : State) (ln gn : String) (l : MLayer) (f : File) (h
     ∃ s', getGlyph s ln gn = .ok (s', ⟨f.blob, false, some f⟩) ∧ s'.disk = s.disk :=
   lazy_read_bound hb hl hun hsc hf
 
+/-- USABLE, save.  The model's in-place save has no failing path except the two situations that are
+outside the modelled domain (replaying the layer history would move a glyph directory onto the
+occupied default directory — finding F37 —, or the UFO holds a layer the font does not hold): in
+every other state a save after a test / a reload returns normally.  (That the real save does is
+what the correspondence runs and the oracle check.) -/
+theorem usable_save (s : State) (tD tS : Time) (e : Err) (h : save s tD tS = .error e) : e = .outsideDomain :=
+  save_error_outside s tD tS e h
+
 /-! ## 6. Non-vacuity: concrete states meeting the hypotheses, and the laws in action -/
 
 def demo : State := run (openFont false demoDisk 9)
@@ -301,6 +319,9 @@ example : (report (step demo (.xglyph "fore" "A" (.write 12) (some 8))).1).modif
 /-- a glyph added externally is reported once, can then be read lazily (F6) -/
 example : ((step (run demo [.xglyph "back" "B" (.write 13) (some 9), .test]) (.gget "back" "B")).2 matches .blob 13) := by
   decide
+/-- the hypotheses of `reload_part_resyncs` / `usable_save` are met by concrete states -/
+example : xPart demo.zip demo.disk .info (.write 11) (some 6) ≠ none := by decide
+example : (save demo 100 101 matches .ok _) = true := by decide
 example : Bound (test demo).1 "fore" := usable_after_test demo "fore" _ (by decide) (by decide) rfl
 
 end DefconModel.Props.C05
